@@ -1,6 +1,7 @@
 """
 Python type hint standard may vary from versions
 """
+import re
 import sys
 import typing
 from typing import (Any, ClassVar, ForwardRef, Optional, Tuple,  # type: ignore
@@ -116,7 +117,28 @@ def _check_final(v) -> bool:
     )
 
 
+_STR_QUALIFIER = re.compile(r"^\s*(?:\w+\s*\.\s*)*(ClassVar|Final)\s*(?:\[(.*)\])?\s*$", re.S)
+
+
+def str_qualifier(ann_type):
+    """
+    Under postponed evaluation (PEP 563) an annotation arrives as a string: 'Final[int]' / 'ClassVar[int]'
+    describe the attribute, not its type (and typing refuses them as the argument of a ForwardRef),
+    so they are recognized by their spelling, as the standard library's dataclasses do.
+    return (qualifier, inner) or (None, None)
+    """
+    if isinstance(ann_type, ForwardRef):
+        ann_type = ann_type.__forward_arg__
+    if isinstance(ann_type, str):
+        match = _STR_QUALIFIER.match(ann_type)
+        if match:
+            return match.group(1), match.group(2)
+    return None, None
+
+
 def is_classvar(ann_type) -> bool:
+    if str_qualifier(ann_type)[0] == "ClassVar":
+        return True
     return _check_classvar(ann_type) or _check_classvar(
         getattr(ann_type, "__origin__", None)
     )
@@ -131,6 +153,8 @@ def is_annotated(ann_type) -> bool:
 
 
 def is_final(ann_type) -> bool:
+    if str_qualifier(ann_type)[0] == "Final":
+        return True
     return _check_final(ann_type) or _check_final(getattr(ann_type, "__origin__", None))
 
 
